@@ -745,6 +745,28 @@ def rule_odometer(ctx, M, fn, pr, store_fns=None):
                     order_problems.append("after a player's counter is advanced the (turn, river) position is advanced or all counters "
                                           "are reset in the same deal: the remaining combos of that board are skipped")
                     break
+        # the position moves on only after the scan found NO player with room: the scan dominates every position store, and when
+        # the scan's outcome is carried in an Option (Some(player) at a hit) the stores sit behind its None outcome
+        if sf is fn and len(scan_loops) == 1:
+            lp_s = scan_loops[0]
+            for sb in pos_stores:
+                if not sf.cfg.dominates(lp_s.header, sb):
+                    order_problems.append("the (turn, river) position can be advanced without the scan for a player with room having run: "
+                                          "the remaining combos of that board are skipped")
+                    break
+            hit_locals = []
+            for l_, ds_ in spr.defs.items():
+                if len(ds_) >= 2 and fn.local_ty(l_) == "std::option::Option<usize>":
+                    alts_ = P.alts(spr.local(l_))
+                    if any(a_[0] == "agg" and a_[1].endswith("Option::Some") for a_ in alts_) and \
+                            any(sf.cfg.dominates(lp_s.header, db_) for (db_, _si, _k, _p) in ds_):
+                        hit_locals.append(l_)
+            if len(hit_locals) == 1 and pos_stores:
+                ht_ = spr.local(hit_locals[0])
+                none_edges = [(b_, l_) for (b_, l_, st_) in I.option_edges(sf, spr, lambda t_: P.strip(t_) == ht_ or t_ == ht_) if st_ == "none"]
+                if none_edges and not all(I.guarded_by(sf, sb, none_edges) for sb in pos_stores):
+                    order_problems.append("the (turn, river) position can be advanced although the scan found a player with room: "
+                                          "the remaining combos of that board are skipped")
         for sb in pos_stores:
             r_ = I.reachable_avoiding(sf, [], start=sb, removed_blocks=whole)
             dominated = any(sf.cfg.dominates(w_, sb) for w_ in whole)   # `fill(0)` written before the position update
